@@ -33,6 +33,7 @@ type Job struct {
 	Shadow  bool     `json:"shadow"`
 	Msgs    [][]byte `json:"msgs,omitempty"`
 	Bulk    *Bulk    `json:"bulk,omitempty"`
+	Scen    *Scen    `json:"scen,omitempty"`
 	GuardMS int      `json:"guard_ms"`
 }
 
@@ -65,15 +66,18 @@ type StepRec struct {
 
 // Result is what the executor reports for a case.
 type Result struct {
-	ID       int            `json:"id"`
-	SetupErr string         `json:"setup_err,omitempty"`
-	Steps    []StepRec      `json:"steps,omitempty"`
-	Events   []Event        `json:"events,omitempty"`
-	Settled  bool           `json:"settled"`
-	OpenQ    int            `json:"open_q"`
-	OpenS    int            `json:"open_s"`
-	Bulk     *BulkResult    `json:"bulk,omitempty"`
-	Classes  map[string]int `json:"classes,omitempty"`
+	ID        int            `json:"id"`
+	SetupErr  string         `json:"setup_err,omitempty"`
+	Steps     []StepRec      `json:"steps,omitempty"`
+	Events    []Event        `json:"events,omitempty"`
+	Settled   bool           `json:"settled"`
+	OpenQ     int            `json:"open_q"`
+	OpenS     int            `json:"open_s"`
+	Bulk      *BulkResult    `json:"bulk,omitempty"`
+	Scen      *Scen          `json:"scen,omitempty"`
+	ExtWrites []ExtWrite     `json:"ext_writes,omitempty"`
+	Stalled   bool           `json:"stalled,omitempty"`
+	Classes   map[string]int `json:"classes,omitempty"`
 }
 
 // BulkResult summarises a bulk of short byte strings.
@@ -101,6 +105,7 @@ type recorder struct {
 	step     int
 	inHandle bool
 	notify   chan struct{}
+	hook     func(data []byte) // called on the sending goroutine after recording (scenarios: stall the connection)
 }
 
 func (r *recorder) send(data []byte) {
@@ -112,6 +117,9 @@ func (r *recorder) send(data []byte) {
 	select {
 	case r.notify <- struct{}{}:
 	default:
+	}
+	if r.hook != nil {
+		r.hook(d)
 	}
 }
 
@@ -559,6 +567,8 @@ func childMain() {
 		var res Result
 		if j.Bulk != nil {
 			res = x.runBulk(&j)
+		} else if j.Scen != nil {
+			res = x.runScen(&j)
 		} else {
 			res = x.runCase(&j)
 		}
